@@ -980,11 +980,14 @@ def get_input_string(
     def parse_input(
         inp_str: str, silent: bool = False
     ) -> Result[DerivationTree, Exception]:
+        def parse_json_tree() -> DerivationTree:
+            tree = DerivationTree.from_parse_tree(json.loads(inp_str))
+            return eassert(tree, graph().tree_is_valid(tree))
+
         return (
-            safe(lambda: json.loads(inp_str))()
-            .map(DerivationTree.from_parse_tree)
-            .map(lambda tree: eassert(tree, graph().tree_is_valid(tree)))
-            .lash(
+            # Any exception means that the input is not a JSON derivation tree; this
+            # includes inputs that are valid JSON, but not trees (e.g., numbers).
+            safe(parse_json_tree)().lash(
                 lambda _: safe(
                     lambda: solver().parse(inp_str, skip_check=True, silent=silent)
                 )()
